@@ -117,10 +117,6 @@ def check_C11(rep, tier, seed):
     return extra
 
 
-def more_C11(rep, tier, seed):
-    return None
-
-
 def check_C15(rep, tier, seed):
     coq_part(rep, "C15")
     res, mism = k1_part(rep, tier, seed)
@@ -139,15 +135,164 @@ def check_C15(rep, tier, seed):
     more_C15(rep, tier, seed)
 
 
+
+# ------------------------------------------------------------------ K3-based properties
+
+def k3_part(rep, tier, seed):
+    import k3
+    res = k3.run_k3(tier, seed)
+    rep.correspondences.append("K3 whole computations: real crate (free-running threads) vs extracted model "
+                               "(seeded schedule): result, params, type, construction-time calls, call multisets")
+    rep.evaluations += res["total"]
+    rep.traces += res["total"]
+    rep.k3_nontrivial = res["nontrivial"]
+    for k, v in res["dist"].items():
+        rep.count("k3_" + k, v)
+    for s in res["samples"][:3]:
+        rep.sample({"k3": s})
+    for e in res["errors"]:
+        rep.violation("K3 could not run: " + e, {"failing_input_found": False, "theorem_or_correspondence": "K3"})
+    return res
+
+
+def k3_select(res, kinds, pred=lambda m: True):
+    out = []
+    for k in kinds:
+        for m in res["mismatch"].get(k, []):
+            if pred(m):
+                out.append((k, m))
+    return out
+
+
+def report_k3(rep, prop, res, direct, indirect, oracle_keys):
+    """direct: mismatches that are themselves failing inputs (observable value differs from the
+    sequential specification); indirect: correspondence breaks; oracle_keys: direct oracles."""
+    fails = []
+    for key in oracle_keys:
+        for o in res["oracle"].get(key, []):
+            fails.append(("oracle " + o["what"], {"case": o["case"], "observed": o["observed"]}))
+    for kind, m in direct:
+        fails.append(("%s differs from the sequential specification" % kind,
+                      {"case": m["case"], "implementation": m["impl"], "specification(model)": m["model"]}))
+    if fails:
+        for what, inp in fails[:3]:
+            rep.violation(what, {"failing_input_found": True, "correspondence": "K3", "input": inp,
+                                 "replay_hint": "./bin/check %s --replay <this file>" % prop})
+        rep.count("k3_failing_inputs", len(fails))
+    elif indirect:
+        corr_failure(rep, "K3(%s)" % ",".join(sorted(set(k for k, _ in indirect))),
+                     [m for _, m in indirect], [], str)
+
+
+def make_result_check(prop, terms, extra_kinds=(), oracle_keys=(), seq=None, with_k1=False):
+    def check(rep, tier, seed):
+        coq_part(rep, prop)
+        res = k3_part(rep, tier, seed)
+
+        def pred(m):
+            if terms is not None and m.get("term") not in terms:
+                return False
+            if seq is not None and bool(m.get("seq")) != seq:
+                return False
+            return True
+        direct = k3_select(res, ["result", "run"], pred)
+        indirect = k3_select(res, list(extra_kinds), pred)
+        report_k3(rep, prop, res, direct, indirect, list(oracle_keys))
+        if with_k1:
+            r1, mism = k1_part(rep, tier, seed)
+            if mism:
+                corr_failure(rep, "K1", mism, [], str)
+    return check
+
+
+check_C01 = make_result_check("C01", {"cv", "cs", "ci"})
+check_C02 = make_result_check("C02", {"find", "findix", "first", "firstix", "any", "all"})
+check_C03 = make_result_check("C03", {"red"})
+check_C04 = make_result_check("C04", {"cnt", "fe"}, extra_kinds=("calls",), oracle_keys=())
+check_C06 = make_result_check("C06", {"ci"})
+check_C07 = make_result_check("C07", {"cx"})
+
+
+def check_C05(rep, tier, seed):
+    coq_part(rep, "C05")
+    res = k3_part(rep, tier, seed)
+    indirect = k3_select(res, ["calls", "clog"])
+    report_k3(rep, "C05", res, [], indirect, ["C05"])
+
+
+def check_C09(rep, tier, seed):
+    coq_part(rep, "C09")
+    res = k3_part(rep, tier, seed)
+    direct = k3_select(res, ["result", "run", "seq_order", "clog_order"], lambda m: bool(m.get("seq")))
+    report_k3(rep, "C09", res, direct, [], [])
+
+
+def check_C12(rep, tier, seed):
+    coq_part(rep, "C12")
+    res = k3_part(rep, tier, seed)
+    direct = k3_select(res, ["params", "is_sequential"])
+    indirect = k3_select(res, ["kind"])
+    report_k3(rep, "C12", res, direct, indirect, [])
+
+
+def check_C08(rep, tier, seed):
+    coq_part(rep, "C08")
+    res = k3_part(rep, tier, seed)
+    report_k3(rep, "C08", res, [], [], ["C08"])
+    r1, mism = k1_part(rep, tier, seed)
+    if mism:
+        corr_failure(rep, "K1", mism, [], str)
+    known = vlib.load_findings()
+    if res["known"].get("C08", 0) > 0:
+        for f in known["findings"]:
+            if f["property"] == "C08":
+                rep.known.append("%s [%d runs, e.g. %s]" % (f["what"], res["known"]["C08"],
+                                                          res["known"].get("C08_sample", "")[:160]))
+
+
+def check_C16(rep, tier, seed):
+    coq_part(rep, "C16")
+    res = k3_part(rep, tier, seed)
+    known = vlib.load_findings()
+    known_sites = {f["key"] for f in known["findings"] if f["property"] == "C16"}
+    seen = res["known"].get("C16_sites", {})
+    fails = []
+    for site, n in sorted(seen.items()):
+        if site in known_sites:
+            what = [f["what"] for f in known["findings"] if f["property"] == "C16" and f["key"] == site][0]
+            rep.known.append("%s [%s, observed in %d runs]" % (what, site, n))
+        else:
+            fails.append(site)
+    # closures ran during construction where the model (= the known list) says nothing runs
+    bad = [m for _, m in k3_select(res, ["clog"]) if m["model"] == "-" and m["impl"] != "-"]
+    for m in bad[:3]:
+        rep.violation("user closure ran while the computation was being built, outside the known eager sites",
+                      {"failing_input_found": True, "correspondence": "K3/clog",
+                       "input": {"case": m["case"], "construction_time_calls": m["impl"]}})
+    for site in fails[:3]:
+        rep.violation("eager site %s is not in the known-findings list" % site,
+                      {"failing_input_found": True, "correspondence": "K3/sites", "input": {"site": site}})
+    other = [m for _, m in k3_select(res, ["clog"]) if not (m["model"] == "-" and m["impl"] != "-")]
+    if other and not bad and not fails:
+        corr_failure(rep, "K3(clog)", other, [], str)
+
+
+def more_C11(rep, tier, seed):
+    res = k3_part(rep, tier, seed)
+    report_k3(rep, "C11", res, [], [], ["C11"])
+
+
 def more_C15(rep, tier, seed):
-    return None
+    res = k3_part(rep, tier, seed)
+    direct = k3_select(res, ["result", "run"], lambda m: not m.get("seq"))
+    report_k3(rep, "C15", res, direct, [], ["C15"])
 
 
 CHECKS = {
-    "C11": check_C11,
-    "C15": check_C15,
+    "C01": check_C01, "C02": check_C02, "C03": check_C03, "C04": check_C04, "C05": check_C05,
+    "C06": check_C06, "C07": check_C07, "C08": check_C08, "C09": check_C09,
+    "C11": check_C11, "C12": check_C12, "C15": check_C15, "C16": check_C16,
 }
-
 LEVEL_TEXT = {}
 
 
@@ -157,6 +302,7 @@ def main(prop, tier, seed, replay):
         return 2
     rep = Report(prop, tier, seed)
     rep.k1_nontrivial = 0
+    rep.k3_nontrivial = 0
     if replay:
         rep.notes.append("replay of %s: the check re-runs the recorded case first" % replay)
         os.environ["VERIF_REPLAY"] = replay
@@ -171,6 +317,8 @@ def main(prop, tier, seed, replay):
                                         "traceback": traceback.format_exc()[-4000:]})
     for i in range(rep.k1_nontrivial):
         rep.nontrivial.add(("k1", i))
+    for i in range(rep.k3_nontrivial):
+        rep.nontrivial.add(("k3", i))
     return rep.finish(
         level_text=LEVEL_TEXT.get(prop, "theorems over the Coq model + correspondence runs against /repo"),
         trusted_base=TRUSTED_BASE,
